@@ -231,12 +231,10 @@ impl FPeer {
                 Ok(())
             }
         }
-        for _ in 0..2 {
-            let _ = self.db.datamodel().await;
-            let _ = self.db.db.writer.write(Box::new(Noop)).await;
-            let _ = self.db.datamodel().await;
-            let _ = self.events.subcribe().await;
-        }
+        let _ = self.db.datamodel().await;
+        let _ = self.db.db.writer.write(Box::new(Noop)).await;
+        let _ = self.db.datamodel().await;
+        let _ = self.events.subcribe().await;
     }
 
     pub async fn subscribe(&self) -> broadcast::Receiver<Event> {
@@ -440,6 +438,10 @@ pub async fn transfer_room_def(dst: &FPeer, src: &FPeer, room: Uid) -> Result<()
         .await
         .map_err(|e| e.to_string())?
         .ok_or("room unknown on source".to_string())?;
+    // the wire format drops local row ids (#[serde(skip)]): go through it as the protocol does
+    let bytes = bincode::serialize(&node).map_err(|e| e.to_string())?;
+    let node: discret::verif::database::room_node::RoomNode =
+        bincode::deserialize(&bytes).map_err(|e| e.to_string())?;
     let node = dst
         .services
         .signature_verification
@@ -452,8 +454,7 @@ pub async fn transfer_room_def(dst: &FPeer, src: &FPeer, room: Uid) -> Result<()
 }
 
 pub fn runtime() -> tokio::runtime::Runtime {
-    tokio::runtime::Builder::new_multi_thread()
-        .worker_threads(2)
+    tokio::runtime::Builder::new_current_thread()
         .enable_all()
         .build()
         .unwrap()
